@@ -41,23 +41,24 @@ def _list_head(e):
     return None
 
 
-def frame_heads(fn, arg) -> set:
-    """constant heads of the list(s) that can reach a ws_send argument `json_dumps(<list or name>)`"""
-    heads = set()
+def frame_lists(fn, arg, depth=3) -> list:
+    """the list display(s) that can reach a ws_send argument: json_dumps(<list>), a name bound to one, a name bound to json_dumps(…)"""
+    out = []
     a = arg
     if isinstance(a, ast.Call) and call_name(a) in ("json_dumps", "json.dumps") and a.args:
         a = a.args[0]
     if isinstance(a, ast.List):
-        h = _list_head(a)
-        if h is not None:
-            heads.add(h)
-    elif isinstance(a, ast.Name):
+        out.append(a)
+    elif isinstance(a, ast.Name) and depth:
         for st in stores_of(fn, a.id):
             if isinstance(st, ast.Assign):
-                h = _list_head(st.value)
-                if h is not None:
-                    heads.add(h)
-    return heads
+                out += frame_lists(fn, st.value, depth - 1)
+    return out
+
+
+def frame_heads(fn, arg) -> set:
+    """constant heads of the list(s) that can reach a ws_send argument"""
+    return {_list_head(l) for l in frame_lists(fn, arg) if _list_head(l) is not None}
 
 
 def event_branch_tests(fn):
@@ -132,7 +133,7 @@ def rule_one_ok(program, ctx):
                 for okn in oks & region:
                     st = cfg.ast_of(okn)
                     call = next(c for c in own_calls(st) if call_name(c) == "ws_send")
-                    used = {x.id for x in ast.walk(call) if isinstance(x, ast.Name)} - {"ws_send", "json_dumps"}
+                    used = {x.id for l in frame_lists(fn, call.args[0]) for x in ast.walk(l) if isinstance(x, ast.Name)} - {"ws_send", "json_dumps"}
                     # names assigned only before the loop (parameters, message, command) are not at issue
                     branch_vars = set()
                     for r in region:
@@ -169,15 +170,16 @@ def rule_true(program, ctx):
                 ctx.bad(finding_at(P, rid, r, "add_event returns from inside the transaction region: the acknowledgement precedes the commit"))
                 continue
             if isinstance(second, ast.Constant):
-                ctx.bad(finding_at(P, rid, r, f"add_event acknowledges with the constant {second.value!r}: a resubmitted event is acknowledged as new "
+                ctx.bad(finding_at(P, rid, r, label="constant acknowledgement", message=f"add_event acknowledges with the constant {second.value!r}: a resubmitted event is acknowledged as new "
                                    "(the writer thread later skips it) and an event the writer fails to apply is still OK=true"))
                 continue
             if not isinstance(second, ast.Name):
                 ctx.bad(finding_at(P, rid, r, "acknowledgement status is not a tracked variable"))
                 continue
             okall = True
+            from ..lib import expand_aliases
             for st in stores_of(fn, second.id):
-                v = st.value if isinstance(st, ast.Assign) else None
+                v = expand_aliases(fn, st.value) if isinstance(st, ast.Assign) else None
                 if isinstance(v, ast.Constant) and v.value is False:
                     continue
                 if (
@@ -188,8 +190,10 @@ def rule_true(program, ctx):
                     ok_src = False
                     if isinstance(res, ast.Name):
                         for d in stores_of(fn, res.id):
-                            if isinstance(d, ast.Assign) and isinstance(strip_await(d.value), ast.Call) and call_name(strip_await(d.value)).endswith(".execute") and "event_insert_query" in ast.unparse(d.value):
+                            if isinstance(d, ast.Assign) and isinstance(strip_await(d.value), ast.Call) and call_name(strip_await(d.value)).endswith(".execute") and "event_insert_query" in ast.unparse(expand_aliases(fn, d.value)):
                                 ok_src = True
+                    elif isinstance(res, ast.Call) and call_name(res).endswith(".execute") and "event_insert_query" in ast.unparse(res):
+                        ok_src = True
                     inside = any(isinstance(a, (ast.With, ast.AsyncWith)) and any("begin" in dotted(i.context_expr) for i in a.items) for a in ancestors(st))
                     if ok_src and inside:
                         continue
@@ -230,7 +234,7 @@ def rule_broadcast(program, ctx, prop=P, rid="C06.broadcast"):
                 ctx.bad(finding_at(prop, rid, s, f"{label} inside the transaction region: subscribers see an event that may still be rolled back"))
                 continue
             if status is None:
-                ctx.bad(finding_at(prop, rid, s, f"{label} is not control-dependent on a 'was new' fact: a resubmitted (duplicate) event is broadcast again"))
+                ctx.bad(finding_at(prop, rid, s, f"{label} is not control-dependent on a 'was new' fact: a resubmitted (duplicate) event is broadcast again", label="unconditional broadcast"))
                 continue
             passes = test_edges(cfg_, lambda e, p, status=status: p and isinstance(e, ast.Name) and e.id == status)
             if must_pass(cfg_, passes, [n]):
@@ -294,7 +298,7 @@ def rule_writer(program, ctx):
         else:
             ctx.ok(rid, cfg.ast_of(enq[0]), f"`{ev}.{field}` range-guarded before the acknowledged enqueue (writers: {sites})")
     if missing:
-        ctx.bad(finding_at(P, rid, cfg.ast_of(enq[0]),
+        ctx.bad(finding_at(P, rid, cfg.ast_of(enq[0]), label="no range guard before the acknowledged enqueue: " + ",".join(missing), message=
                            f"no range guard on {', '.join(ev + '.' + f for f in missing)} before the enqueue: a validly signed event with e.g. "
                            "created_at = 2**32 or kind = -1 is acknowledged OK=true, then `.to_bytes(4)` raises OverflowError in the writer "
                            "thread, the transaction aborts, the failure is only logged and the event is lost"))
@@ -317,12 +321,24 @@ def rule_reason(program, ctx):
                 return
             evn, stn = [e.id for e in unpack.targets[0].elts]
             okid = any(isinstance(s, ast.Assign) and dotted(s.value) == f"{evn}.id" for s in t.orelse)
-            dup = any(isinstance(s, ast.Assign) and isinstance(s.value, ast.IfExp) and isinstance(s.value.test, ast.Name) and s.value.test.id == stn for s in t.orelse)
+            def mentions_status(e):
+                return any(isinstance(x, ast.Name) and x.id == stn for x in ast.walk(e))
+
+            dup = False
+            for s_ in t.orelse:
+                for n_ in ast.walk(s_):
+                    # reason = "" if result else "duplicate…"   |   if [not] result: reason = … else: reason = …
+                    if isinstance(n_, ast.Assign) and isinstance(n_.value, ast.IfExp) and mentions_status(n_.value.test):
+                        dup = True
+                    if isinstance(n_, ast.If) and mentions_status(n_.test) and n_.orelse and all(
+                        any(isinstance(a_, ast.Assign) for a_ in ast.walk(ast.Module(body=b_, type_ignores=[]))) for b_ in (n_.body, n_.orelse)
+                    ):
+                        dup = True
             send = None
             for c in ast.walk(t):
                 if isinstance(c, ast.Call) and call_name(c) == "ws_send" and c.args and "OK" in frame_heads(fn, c.args[0]):
                     send = c
-            uses_status = send is not None and any(isinstance(x, ast.Name) and x.id == stn for x in ast.walk(send))
+            uses_status = send is not None and any(isinstance(x, ast.Name) and x.id == stn for l in frame_lists(fn, send.args[0]) for x in ast.walk(l))
             if okid and dup and uses_status:
                 ctx.ok(rid, t, f"OK carries {evn}.id, `{stn}` from add_event and a duplicate reason when false")
             else:
